@@ -35,7 +35,7 @@ func init() {
 	})
 	core.Register(&core.Prop{
 		ID: "C12",
-		Rule: "case = one tree produced by a C11-style insert/delete history (so shapes after deletes and root collapses are included) queried with NearestNeighbor and NearestNeighbors for k in {1,2,3,5,Size-1,Size,Size+3} at points inside boxes, on borders and corners, outside the root box and far away; oracle = sorted brute-force box distances (ties compared by distance); " +
+		Rule: "case = one tree produced by a C11-style insert/delete history (so shapes after deletes and root collapses are included) queried with NearestNeighbor and NearestNeighbors for k in {1,2,3,5,Size-1,Size,Size+3} at points inside boxes, on borders and corners, outside the root box, far away and so far away (1e140..1e300) that squared distances overflow; oracle = sorted brute-force box distances (ties compared by distance); " +
 			"an evaluation is one query judged; non-trivial = query with k>1 on a tree of depth >= 2 (walker-confirmed); distinct by (history hash, query)",
 		Assumptions: []string{"box distance = Euclidean distance from the point to the closed bounding box", "distances compared to 1e-12 relative"},
 		Phases: []core.Phase{{Name: "queries", NumCases: func(t string) int {
@@ -46,7 +46,7 @@ func init() {
 		}}},
 		Run: func(c *core.Ctx, idx int) { runHistory(c, idx, true) },
 		Floors: func(t string) map[string]int64 {
-			return map[string]int64{"nn.k>1.depth>=2": 1000, "nn.depth>=3": 100, "nn.k>=size": 200, "nn.point_on_border": 300, "nn.point_outside_root": 300, "nn.after_root_collapse": 100, "nn.single": 1000}
+			return map[string]int64{"nn.k>1.depth>=2": 1000, "nn.depth>=3": 100, "nn.k>=size": 200, "nn.point_on_border": 300, "nn.point_outside_root": 300, "nn.beyond_1e140": 100, "nn.after_root_collapse": 100, "nn.single": 1000}
 		},
 	})
 }
@@ -725,6 +725,24 @@ func (h *hist) queryNN() {
 		case 3:
 			p = geom.Point{X: r.Range(-1e6, 1e6), Y: r.Range(-1e6, 1e6)}
 			cat = "far_away"
+			if r.Chance(0.4) {
+				// so far that squared distances leave the float64 range (the distances
+				// themselves stay below 1e301 and are representable)
+				mag := func() float64 {
+					v := math.Pow(10, r.Range(140, 300))
+					if r.Bool() {
+						v = -v
+					}
+					return v
+				}
+				p = geom.Point{X: mag(), Y: mag()}
+				if r.Chance(0.4) {
+					p.Y = h.coord()
+				} else if r.Chance(0.3) {
+					p.X = h.coord()
+				}
+				cat = "beyond_1e140"
+			}
 		default:
 			p = geom.Point{X: h.coord() + r.Float64(), Y: h.coord() + r.Float64()}
 			cat = "random"
